@@ -1015,6 +1015,9 @@ func gen(c *core.Ctx) error {
 		genText(c)
 	}
 	if !aborted {
+		genSinful(c)
+	}
+	if !aborted {
 		genSci(c)
 	}
 	c.Note(fmt.Sprintf("deepest call stack seen at a mock-stream ReadFrame: %d frames (oracle bound 64)", maxMsgDepthSeen))
